@@ -3,7 +3,7 @@ from reg._common import COMMON_ASSUME
 
 ENTRY = {
     'extractors': ['translate_py.py', 'translate_f90.py'],
-    'lean_files': ['Tables/SrcPyPipeline.lean', 'Tables/SrcPyNewton.lean', 'Tables/SrcF90Pipeline.lean', 'Tables/C02.lean', 'Props/C02.lean', 'Props/C02Pipeline.lean', 'Props/C02Concrete.lean', 'Props/C02Newton.lean', 'Props/C02Rounding.lean'],
+    'lean_files': ['Tables/SrcPyAlgebraic.lean', 'Tables/SrcPyPipeline.lean', 'Tables/SrcPyNewton.lean', 'Tables/SrcF90Pipeline.lean', 'Tables/C02.lean', 'Props/C02.lean', 'Props/C02Pipeline.lean', 'Props/C02Concrete.lean', 'Props/C02Newton.lean', 'Props/C02Rounding.lean'],
     'lemma_files': ['Lemmas/RoundingNewton.lean', 'Lemmas/RoundingDeriv.lean', 'Lemmas/RoundingMore.lean', 'Lemmas/Rounding.lean', 'Lemmas/NewtonGate.lean', 'Model/Newton.lean', 'Lemmas/Solve2x2.lean', 'Lemmas/Lipschitz.lean', 'Lemmas/EvalBary.lean', 'Lemmas/Bridge.lean',
                     'Lemmas/Shift.lean', 'Lemmas/VS.lean', 'Model/Solve2x2.lean', 'Model/Curve.lean', 'Model/Basic.lean'],
     'script': 'props/c02.py',
